@@ -134,10 +134,6 @@ from . import symh5  # noqa: E402
 h5py_proxy = symh5.h5py
 path_proxy = symh5.Path
 os_proxy = symh5.os_mod
-dpotrf_stub = _Missing('dpotrf')
-dpotri_stub = _Missing('dpotri')
-MLPRegressorStub = _Missing('MLPRegressor')
-rankdata_stub = _Missing('rankdata')
 
 
 # ---------------------------------------------------------------------------
@@ -313,3 +309,62 @@ def _minimize(fun, x0, bounds=None, **kw):
 GaussianMixtureStub = _GMM
 MultivariateNormalStub = _MVN
 minimize_stub = _minimize
+
+
+# ---------------------------------------------------------------------------
+# sklearn MLPRegressor stand-in (network = uninterpreted function of exactly
+# the attributes sklearn's predict reads, and of the input row)
+# ---------------------------------------------------------------------------
+
+class MLPRegressorStub(object):
+    def __init__(self, hidden_layer_sizes=(100,), activation='relu',
+                 alpha=0.0001, learning_rate_init=0.001, max_iter=200,
+                 tol=1e-4, n_iter_no_change=10, random_state=None, **kw):
+        self.hidden_layer_sizes = hidden_layer_sizes
+        self.activation = activation
+        self.alpha = alpha
+        self.learning_rate_init = learning_rate_init
+        self.max_iter = max_iter
+        self.tol = tol
+        self.n_iter_no_change = n_iter_no_change
+        self.random_state = random_state
+        for k, v in kw.items():
+            setattr(self, k, v)
+
+    def fit(self, x, y):
+        raise NotModelled('MLPRegressor.fit')
+
+    def predict(self, x):
+        W = _W()
+        np = W.np
+        for a in ('coefs_', 'intercepts_', 'n_layers_', 'out_activation_',
+                  'activation'):
+            if not hasattr(self, a):
+                raise AttributeError("'MLPRegressor' object has no attribute "
+                                     "'%s'" % a)
+        params = []
+        for k in range(int(self.n_layers_) - 1):
+            c = np.asarray(self.coefs_[k])
+            params.extend(c.reshape(-1).tolist() if hasattr(c, 'tolist')
+                          else list(c))
+            b = np.asarray(self.intercepts_[k])
+            params.extend(b.reshape(-1).tolist())
+        name = 'NN_%s_%s_%d' % (str(self.activation),
+                                str(self.out_activation_),
+                                int(self.n_layers_))
+        x = np.asarray(x)
+        out = [W.uf(name, params + [x[j][c] for c in range(x.shape[1])])
+               for j in range(len(x))]
+        return np.array(out, dtype=float) if out else np.zeros(0)
+
+
+def rankdata_stub(a):
+    raise NotModelled('rankdata')
+
+
+def _potrf(m):
+    raise NotModelled('dpotrf')
+
+
+dpotrf_stub = _potrf
+dpotri_stub = _potrf
